@@ -752,10 +752,28 @@ class VerifyingBase(LookupBaseFallback):  # noqa F821
         ):
             self.changed(None)
 
-    def _getcache(self, provided, name):
+    # Like the C implementation, every entry point verifies first, before
+    # it evaluates its arguments (a lazy ``required`` or the declaration
+    # of ``object`` can run code that changes a base registry; doing this
+    # in ``_getcache`` made ``lookup`` see such a change while
+    # ``lookupAll``, ``subscriptions`` and the C code do not).
+
+    def lookup(self, required, provided, name='', default=None):
         self._verify()
-        return LookupBaseFallback._getcache(  # noqa F821
-            self, provided, name,
+        return LookupBaseFallback.lookup(  # noqa F821
+            self, required, provided, name, default,
+        )
+
+    def lookup1(self, required, provided, name='', default=None):
+        self._verify()
+        return LookupBaseFallback.lookup1(  # noqa F821
+            self, required, provided, name, default,
+        )
+
+    def adapter_hook(self, provided, object, name='', default=None):
+        self._verify()
+        return LookupBaseFallback.adapter_hook(  # noqa F821
+            self, provided, object, name, default,
         )
 
     def lookupAll(self, required, provided):
